@@ -112,7 +112,7 @@ def generate(rng: random.Random, tier: str) -> dict:
             else:
                 steps.append([round(rng.uniform(-0.2, 0.2), 4) for _ in range(4)])
         driver = {"steps": steps, "final": rng.randrange(n)}
-    mode = "all" if (tier == "thorough" and rng.random() < 0.5) else "sample"
+    mode = "all" if rng.random() < (0.5 if tier == "thorough" else 0.15) else "sample"
     if mode == "all":
         site = rng.choice(SITES[:-1])
         faults = [
